@@ -104,6 +104,11 @@ def layer_a(ctx):
             ctx.cov['traces_validated_against_impl'] += 1
             if got != want:
                 ctx.mismatch('A:%s_flags' % cmd, args, repr(want), repr(got))
+                # the argument list is itself the failing input: the library is called with other options than
+                # the documented meaning of these flags (the proved flag table) gives
+                ctx.fail({'layer': 'A', 'command': cmd, 'argv': args},
+                         'tdda %s %s calls the library with %r; the documented flag meanings give %r'
+                         % (cmd, ' '.join(args), got, want))
     ctx.extra['layerA_flag_combinations'] = len(cases)
     ctx.extra['layerA_exhaustive'] = True
 
